@@ -54,7 +54,18 @@ Section Assoc.
   Qed.
 End Assoc.
 
+Lemma valid_digest_nil : valid_digest [] = false.
+Proof. reflexivity. Qed.
+
 Opaque valid_digest valid_tag valid_repository repo_parse.
+
+Lemma up_dig_ok (c : bool) d :
+  valid_digest (nstr (opt_if c d)) && negb (str_eqb (nstr (opt_if c d)) d) = false.
+Proof.
+  destruct c; cbn [opt_if nstr].
+  - now rewrite str_eqb_refl, andb_false_r.
+  - now rewrite valid_digest_nil.
+Qed.
 
 (* ---------- honest responses pass the client's checks ---------- *)
 
@@ -71,6 +82,7 @@ Section Refine.
   Variable subject_of : str -> option (option desc).
   Variables main other : str.
   Variable user_mts : list str.
+  Variable limit : N.
   Variable p : profile.
 
   Hypothesis Hneq : str_eqb main other = false.
@@ -93,8 +105,8 @@ Section Refine.
   Lemma gen_desc_honest mt n (c : bool) d ar body rf hd :
     parse_mt mt = Some mt -> valid_digest d = true ->
     (rf = d \/ valid_digest rf = false) ->
-    (c = true \/ (hd = true /\ rf = d) \/ (hd = false /\ H body = d)) ->
-    gen_desc H parse_mt (mkResp 200 (Some mt) (Some n) (opt_if c d) None ar None [] body) rf hd
+    (c = true \/ (hd = true /\ rf = d) \/ (hd = false /\ H body = d /\ len body <= limit)) ->
+    gen_desc H parse_mt limit (mkResp 200 (Some mt) (Some n) (opt_if c d) None ar None [] body) rf hd
     = Some (mkDesc mt d n).
   Proof.
     intros Hm Vd Hrf Hc. unfold gen_desc. proj. rewrite Hm.
@@ -106,9 +118,10 @@ Section Refine.
       destruct Hrf as [->|Vr].
       + rewrite Vd, str_eqb_refl. reflexivity.
       + rewrite Vr. reflexivity.
-    - destruct Hc as [X|[[-> ->]|[-> Hb]]]; [discriminate| |].
+    - destruct Hc as [X|[[-> ->]|(-> & Hb & Hl)]]; [discriminate| |].
       + rewrite Vd, str_eqb_refl. reflexivity.
-      + rewrite Hb. destruct Hrf as [->|Vr].
+      + assert (El : (limit <? len body) = false) by (apply N.ltb_ge; exact Hl).
+        rewrite El, Hb. destruct Hrf as [->|Vr].
         * rewrite Vd, str_eqb_refl. reflexivity.
         * rewrite Vr. reflexivity.
   Qed.
@@ -195,7 +208,7 @@ Section Refine.
   (* ---- invariant of reachable registry states ---- *)
   Definition sinv (st : store) : Prop :=
     (forall d mt c, lookup d (t_mans st) = Some (mt, c) ->
-        d = H c /\ sub_ok subject_of p c /\ parse_mt mt = Some mt) /\
+        d = H c /\ sub_ok subject_of p c /\ parse_mt mt = Some mt /\ len c <= limit) /\
     (forall d c, lookup d (t_other st) = Some c -> d = H c).
   Definition inv (g : reg) : Prop := sinv (store_of g).
 
@@ -247,7 +260,7 @@ Section Refine.
     valid_digest (d_dg d) = true ->
     exists t, man_fetch parse_mt main S ex0 (g, n) d = ((g, n + 1), t, RBytes c).
   Proof.
-    intros [I _] L Hs V. destruct (I _ _ _ L) as (_ & _ & Pm).
+    intros [I _] L Hs V. destruct (I _ _ _ L) as (_ & _ & Pm & Hlim).
     unfold man_fetch. rewrite hx_get_man.
     rewrite (man_resp_hit false g (d_dg d) (d_dg d) (d_mt d) c)
       by (rewrite man_lookup_digest, L; auto).
@@ -270,11 +283,11 @@ Section Refine.
     inv g -> resolve_ref main rs = Some rf ->
     man_lookup (store_of g) rf = Some (d, (mt, c)) ->
     (p_dighdr p = true \/ valid_digest rf = true) ->
-    exists t, man_resolve H parse_mt main user_mts S ex0 (g, n) rs
+    exists t, man_resolve H parse_mt main user_mts limit S ex0 (g, n) rs
               = ((g, n + 1), t, RDesc (mkDesc mt d (len c))).
   Proof.
     intros [I _] ER L Hd. destruct (man_lookup_key _ _ _ _ L) as [Lk Hk].
-    destruct (I _ _ _ Lk) as (Ed & _ & Pm).
+    destruct (I _ _ _ Lk) as (Ed & _ & Pm & Hlim).
     unfold man_resolve. rewrite ER, hx_head_man, (man_resp_hit true g rf d mt c L).
     simp. rewrite orb_true_r. cbn [opt_if].
     rewrite gen_desc_honest; eauto.
@@ -285,7 +298,7 @@ Section Refine.
 
   Lemma man_resolve_miss g n rs rf :
     resolve_ref main rs = Some rf -> man_lookup (store_of g) rf = None ->
-    exists t, man_resolve H parse_mt main user_mts S ex0 (g, n) rs = ((g, n + 1), t, RErr ENotFound).
+    exists t, man_resolve H parse_mt main user_mts limit S ex0 (g, n) rs = ((g, n + 1), t, RErr ENotFound).
   Proof.
     intros ER L. unfold man_resolve. rewrite ER, hx_head_man, (man_resp_miss true g rf L).
     simp. eauto.
@@ -296,11 +309,11 @@ Section Refine.
     inv g -> resolve_ref main rs = Some rf ->
     man_lookup (store_of g) rf = Some (d, (mt, c)) ->
     (p_clen p = true \/ p_dighdr p = true \/ valid_digest rf = true) ->
-    exists n' t, man_fetchref H parse_mt main user_mts S ex0 (g, n) rs
+    exists n' t, man_fetchref H parse_mt main user_mts limit S ex0 (g, n) rs
               = ((g, n'), t, RDescBytes (mkDesc mt d (len c)) c).
   Proof.
     intros Hi ER L Hd. pose proof Hi as [I _]. destruct (man_lookup_key _ _ _ _ L) as [Lk Hk].
-    destruct (I _ _ _ Lk) as (Ed & _ & Pm).
+    destruct (I _ _ _ Lk) as (Ed & _ & Pm & Hlim).
     unfold man_fetchref. rewrite ER, hx_get_man, (man_resp_hit false g rf d mt c L).
     simp. rewrite orb_false_r.
     destruct (p_clen p) eqn:Ec; cbn [opt_if].
@@ -308,12 +321,13 @@ Section Refine.
       + subst d. apply Hvalid.
       + destruct (valid_digest rf) eqn:V; auto. left. symmetry. auto.
     - destruct Hd as [X|Hd]; [discriminate|].
-      destruct (man_resolve_hit g (n + 1) rs rf d mt c Hi ER L Hd) as [t E]. rewrite E. eauto.
+      destruct (man_resolve_hit g (n + 1) rs rf d mt c Hi ER L Hd) as [t E]. rewrite E.
+      cbn [d_dg]. rewrite vd_opt by (subst d; apply Hvalid). eauto.
   Qed.
 
   Lemma man_fetchref_miss g n rs rf :
     resolve_ref main rs = Some rf -> man_lookup (store_of g) rf = None ->
-    exists t, man_fetchref H parse_mt main user_mts S ex0 (g, n) rs = ((g, n + 1), t, RErr ENotFound).
+    exists t, man_fetchref H parse_mt main user_mts limit S ex0 (g, n) rs = ((g, n + 1), t, RErr ENotFound).
   Proof.
     intros ER L. unfold man_fetchref. rewrite ER, hx_get_man, (man_resp_miss false g rf L).
     simp. eauto.
@@ -359,7 +373,8 @@ Section Refine.
     rewrite hx_get_blob, L, blob_resp_none. simp. rewrite orb_false_r.
     destruct (p_clen p); cbn [opt_if].
     - rewrite gen_blob_honest by exact V. eauto.
-    - destruct (blob_resolve_hit g (n + 1) rs rf c ER V L) as [t E]. rewrite E. eauto.
+    - destruct (blob_resolve_hit g (n + 1) rs rf c ER V L) as [t E]. rewrite E.
+      cbn [d_dg]. rewrite vd_opt by exact V. eauto.
   Qed.
 
   Lemma blob_fetchref_miss g n rs rf :
@@ -450,7 +465,7 @@ Section Refine.
     intros M Hs Hh V. unfold complete_push, sess_resp. proj.
     rewrite Hs, N.eqb_refl. cbn [negb]. rewrite andb_false_r.
     unfold cexch, handle. proj. rewrite str_eqb_refl. proj. rewrite M. proj.
-    rewrite V, Hh, str_eqb_refl, <- Hs, N.eqb_refl. cbn [andb]. simp.
+    rewrite V, Hh, str_eqb_refl, <- Hs, N.eqb_refl. cbn [andb]. simp. rewrite up_dig_ok.
     eexists _, _. split; reflexivity.
   Qed.
 
@@ -631,17 +646,18 @@ Section Refine.
   (* pushWithIndexing *)
   Lemma man_push_exec g n rst d c rf :
     valid_ref rf = true -> len c = d_sz d -> H c = d_dg d -> sub_ok c -> rst_ok rst ->
-    valid_digest (d_dg d) = true ->
+    valid_digest (d_dg d) = true -> len c <= limit ->
     exists g' n' t,
-      man_push H subject_of main S ex0 (g, n) rst d c rf
+      man_push H subject_of main limit S ex0 (g, n) rst d c rf
       = ((g', n'), rst_of (snd (put_manifest (store_of g) (d_dg d) (d_mt d) c rf)) rst c, t,
          snd (put_manifest (store_of g) (d_dg d) (d_mt d) c rf)) /\
       store_of g' = fst (put_manifest (store_of g) (d_dg d) (d_mt d) c rf).
   Proof.
-    intros Vr Hs Hh Sj Hr V. unfold man_push.
+    intros Vr Hs Hh Sj Hr V Hl. unfold man_push.
     destruct (man_put_exec g n rst d c true rf Vr Hs Hh Sj Hr V) as (g' & n' & t & E & St).
+    assert (El : (limit <? d_sz d) = false) by (apply N.ltb_ge; rewrite <- Hs; exact Hl).
     destruct (indexable (d_mt d) && negb (rs_supported rst)) eqn:Ei.
-    - rewrite Hs, N.eqb_refl, Hh, str_eqb_refl. cbn [negb orb]. rewrite E.
+    - rewrite El, Hs, N.eqb_refl, Hh, str_eqb_refl. cbn [negb orb]. rewrite E.
       destruct (put_manifest_result (store_of g) (d_dg d) (d_mt d) c rf) as [R|R]; rewrite R in *.
       + cbn [rst_of]. apply andb_true_iff in Ei as [_ Ns]. apply negb_true_iff in Ns.
         unfold rst_after. destruct Sj as [Sj|(Pr & s & Sj & Ne)]; rewrite Sj.
@@ -653,7 +669,7 @@ Section Refine.
 
   Lemma man_push_bad g n rst d c :
     matches_desc H d c = false -> valid_digest (d_dg d) = true ->
-    exists g' n' t, man_push H subject_of main S ex0 (g, n) rst d c (d_dg d) = ((g', n'), rst, t, RErr EOther) /\
+    exists g' n' t, man_push H subject_of main limit S ex0 (g, n) rst d c (d_dg d) = ((g', n'), rst, t, RErr EOther) /\
                     store_of g' = store_of g.
   Proof.
     intros M V. unfold man_push.
@@ -661,7 +677,7 @@ Section Refine.
     - unfold matches_desc in M.
       assert (X : negb (len c =? d_sz d) || negb (str_eqb (H c) (d_dg d)) = true).
       { destruct (len c =? d_sz d); cbn in *; [now rewrite M|reflexivity]. }
-      rewrite X. eexists _, _, _. split; reflexivity.
+      rewrite X. destruct (limit <? d_sz d); eexists _, _, _; split; reflexivity.
     - apply man_put_bad; auto.
   Qed.
 
@@ -678,14 +694,15 @@ Section Refine.
     inv g -> rst_ok rst -> lookup (d_dg d) (g_mans g) = Some (d_mt d, c) -> len c = d_sz d ->
     valid_digest (d_dg d) = true ->
     exists g' n' rst' t,
-      man_delete H parse_mt subject_of main S ex0 (g, n) rst d = ((g', n'), rst', t, ROk) /\
+      man_delete H parse_mt subject_of main limit S ex0 (g, n) rst d = ((g', n'), rst', t, ROk) /\
       rst_ok rst' /\
       store_of g' = mkStore (g_blobs g) (remove (d_dg d) (g_mans g))
                       (filter (fun t => negb (str_eqb (snd t) (d_dg d))) (g_tags g)) (g_other g).
   Proof.
-    intros Hi Hr L Hs V. pose proof Hi as [I _]. destruct (I _ _ _ L) as (Hh & Sj & _).
+    intros Hi Hr L Hs V. pose proof Hi as [I _]. destruct (I _ _ _ L) as (Hh & Sj & _ & Hlim).
+    assert (El : (limit <? d_sz d) = false) by (apply N.ltb_ge; rewrite <- Hs; exact Hlim).
     unfold man_delete. destruct (indexable_del (d_mt d) && negb (rs_supported rst)) eqn:Ei.
-    - destruct (man_fetch_hit g n d c Hi L Hs V) as [t1 E1]. rewrite E1.
+    - rewrite El. destruct (man_fetch_hit g n d c Hi L Hs V) as [t1 E1]. rewrite E1.
       rewrite Hs, N.eqb_refl, <- Hh, str_eqb_refl. cbn [negb orb].
       destruct Sj as [Sj|(Pr & s & Sj & Ne)]; rewrite Sj.
       + destruct (delete_man_hit g (n + 1) d _ L V) as (g' & t2 & E2 & St). rewrite E2.
@@ -702,11 +719,12 @@ Section Refine.
   Qed.
 
   Lemma man_delete_miss g n rst d :
-    lookup (d_dg d) (g_mans g) = None -> valid_digest (d_dg d) = true ->
-    exists n' t, man_delete H parse_mt subject_of main S ex0 (g, n) rst d = ((g, n'), rst, t, RErr ENotFound).
+    lookup (d_dg d) (g_mans g) = None -> valid_digest (d_dg d) = true -> d_sz d <= limit ->
+    exists n' t, man_delete H parse_mt subject_of main limit S ex0 (g, n) rst d = ((g, n'), rst, t, RErr ENotFound).
   Proof.
-    intros L V. unfold man_delete. destruct (indexable_del (d_mt d) && negb (rs_supported rst)).
-    - destruct (man_fetch_miss g n d L V) as [t1 E1]. rewrite E1. eauto.
+    intros L V Hl. assert (El : (limit <? d_sz d) = false) by (apply N.ltb_ge; exact Hl).
+    unfold man_delete. destruct (indexable_del (d_mt d) && negb (rs_supported rst)).
+    - rewrite El. destruct (man_fetch_miss g n d L V) as [t1 E1]. rewrite E1. eauto.
     - destruct (delete_man_miss g n d L V) as [t1 E1]. rewrite E1. eauto.
   Qed.
 
@@ -720,7 +738,7 @@ Section Refine.
          snd (put_manifest (store_of g) (d_dg d) (d_mt d) c rf)) /\
       store_of g' = fst (put_manifest (store_of g) (d_dg d) (d_mt d) c rf).
   Proof.
-    intros Hi Hr ER L Hs V. pose proof Hi as [I _]. destruct (I _ _ _ L) as (Hh & Sj & _).
+    intros Hi Hr ER L Hs V. pose proof Hi as [I _]. destruct (I _ _ _ L) as (Hh & Sj & _ & Hlim).
     unfold man_tag. rewrite ER.
     destruct (man_fetch_hit g n d c Hi L Hs V) as [t1 E1]. rewrite E1.
     destruct (man_put_exec g (n + 1) rst d c false rf (resolve_ref_valid _ _ _ ER) Hs (eq_sym Hh) Sj Hr V)
@@ -750,10 +768,10 @@ Section Refine.
     destruct rst; try congruence; rewrite (hx_referrers g n (d_dg d) Pr); simp; rewrite str_eqb_refl; reflexivity.
   Qed.
 
-  Notation wf_op := (wf_op H parse_mt subject_of main user_mts p).
-  Notation wf_hist := (wf_hist H parse_mt subject_of main user_mts p).
+  Notation wf_op := (wf_op H parse_mt subject_of main user_mts limit p).
+  Notation wf_hist := (wf_hist H parse_mt subject_of main user_mts limit p).
   Notation spec_op' := (spec_op H subject_of main user_mts).
-  Notation run_op' := (run_op H parse_mt subject_of main other user_mts S ex0).
+  Notation run_op' := (run_op H parse_mt subject_of main other user_mts limit S ex0).
 
   Lemma matches_desc_true d c : matches_desc H d c = true -> len c = d_sz d /\ H c = d_dg d.
   Proof.
@@ -778,8 +796,8 @@ Section Refine.
       destruct (matches_desc H d c) eqn:M.
       + destruct (matches_desc_true _ _ M) as [Hs Hh].
         destruct (is_manifest user_mts d) eqn:Im.
-        * destruct (Hm eq_refl) as [Sj Pm].
-          destruct (man_push_exec g n rst d c (d_dg d) (valid_ref_digest _ V) Hs Hh Sj Hr V) as (g' & n' & t & E & St).
+        * destruct (Hm eq_refl) as (Sj & Pm & Hl).
+          destruct (man_push_exec g n rst d c (d_dg d) (valid_ref_digest _ V) Hs Hh Sj Hr V Hl) as (g' & n' & t & E & St).
           unfold put_manifest in E, St. rewrite V, str_eqb_refl in E, St. rewrite E. fin_ex.
           -- cbn [rst_of snd]. now apply rst_after_ok.
           -- exact St.
@@ -812,10 +830,10 @@ Section Refine.
         * destruct (blob_resolve_miss g n _ _ ER Hw L) as [t E]. rewrite E. fin_ex.
     - (* Delete *)
       destruct Hw as [V Ha]. destruct (is_manifest user_mts d).
-      + proj. destruct (lookup (d_dg d) (g_mans g)) as [[mt c]|] eqn:L.
+      + destruct Ha as [Ha Hl]. proj. destruct (lookup (d_dg d) (g_mans g)) as [[mt c]|] eqn:L.
         * destruct (Ha _ _ L) as [-> Hs].
           destruct (man_delete_hit g n rst d c Hi Hr L Hs V) as (g' & n' & rst' & t & E & Hr' & St). rewrite E. fin_ex. exact St.
-        * destruct (man_delete_miss g n rst d L V) as (n' & t & E). rewrite E. fin_ex.
+        * destruct (man_delete_miss g n rst d L V Hl) as (n' & t & E). rewrite E. fin_ex.
       + proj. destruct (lookup (d_dg d) (g_blobs g)) as [c|] eqn:L.
         * destruct (delete_blob_hit g n d c L V) as (g' & t & E & St). rewrite E. cbn [lift]. fin_ex. exact St.
         * destruct (delete_blob_miss g n d L) as (t & E). rewrite E. cbn [lift]. fin_ex.
@@ -842,9 +860,9 @@ Section Refine.
         * destruct (man_tag_miss g n rst d rs rf ER L V) as (n' & t & E). rewrite E. fin_ex.
       + unfold man_tag. rewrite ER. fin_ex.
     - (* PushReference *)
-      destruct Hw as (V & M & Sj & Pm). rewrite M. destruct (matches_desc_true _ _ M) as [Hs Hh].
+      destruct Hw as (V & M & Sj & Pm & Hl). rewrite M. destruct (matches_desc_true _ _ M) as [Hs Hh].
       destruct (resolve_ref main rs) as [rf|] eqn:ER.
-      + destruct (man_push_exec g n rst d c rf (resolve_ref_valid _ _ _ ER) Hs Hh Sj Hr V) as (g' & n' & t & E & St).
+      + destruct (man_push_exec g n rst d c rf (resolve_ref_valid _ _ _ ER) Hs Hh Sj Hr V Hl) as (g' & n' & t & E & St).
         rewrite E. fin_ex.
         -- now apply rst_of_ok.
         -- exact St.
@@ -882,10 +900,10 @@ Section Refine.
 
   (* ---------- the invariant is preserved (at the level of the specification) ---------- *)
   Lemma sinv_insert_man st dg mt c tags :
-    sinv st -> dg = H c -> sub_ok c -> parse_mt mt = Some mt ->
+    sinv st -> dg = H c -> sub_ok c -> parse_mt mt = Some mt -> len c <= limit ->
     sinv (mkStore (t_blobs st) (insert dg (mt, c) (t_mans st)) tags (t_other st)).
   Proof.
-    intros [I Io] Hd Sj Pm. split; proj; [|exact Io].
+    intros [I Io] Hd Sj Pm Hl. split; proj; [|exact Io].
     intros d' mt' c' L. apply lookup_insert_inv in L as [[-> X]|L]; [|eauto].
     injection X as -> ->. auto.
   Qed.
@@ -894,10 +912,10 @@ Section Refine.
   Proof. intros [I Io]. split; assumption. Qed.
 
   Lemma put_manifest_sinv st dg mt c rf :
-    sinv st -> dg = H c -> sub_ok c -> parse_mt mt = Some mt ->
+    sinv st -> dg = H c -> sub_ok c -> parse_mt mt = Some mt -> len c <= limit ->
     sinv (fst (put_manifest st dg mt c rf)).
   Proof.
-    intros Hi Hd Sj Pm. unfold put_manifest.
+    intros Hi Hd Sj Pm Hl. unfold put_manifest.
     destruct (valid_digest rf); [destruct (str_eqb rf dg)|]; cbn [fst]; auto;
       apply sinv_insert_man; auto.
   Qed.
@@ -909,7 +927,7 @@ Section Refine.
     - destruct Hw as [V Hm]. destruct (matches_desc H d c) eqn:M; [|exact Hi].
       destruct (matches_desc_true _ _ M) as [Hs Hh].
       destruct (is_manifest user_mts d); cbn [fst]; [|now apply sinv_blobs].
-      destruct (Hm eq_refl) as [Sj Pm]. apply sinv_insert_man; auto.
+      destruct (Hm eq_refl) as (Sj & Pm & Hl). apply sinv_insert_man; auto.
     - destruct (is_manifest user_mts d).
       + destruct (lookup (d_dg d) (t_mans st)) as [[? ?]|]; exact Hi.
       + destruct (lookup (d_dg d) (t_blobs st)); exact Hi.
@@ -922,8 +940,8 @@ Section Refine.
     - destruct (resolve_ref main rs); [|exact Hi]. destruct (man_lookup st s) as [[? [? ?]]|]; exact Hi.
     - destruct (resolve_ref main rs); [|exact Hi].
       destruct (lookup (d_dg d) (t_mans st)) as [[mt c]|] eqn:L; [|exact Hi].
-      destruct (I _ _ _ L) as (Hd & Sj & Pm). apply put_manifest_sinv; auto.
-    - destruct Hw as (V & M & Sj & Pm). rewrite M. destruct (matches_desc_true _ _ M) as [Hs Hh].
+      destruct (I _ _ _ L) as (Hd & Sj & Pm & Hlim). apply put_manifest_sinv; auto.
+    - destruct Hw as (V & M & Sj & Pm & Hl). rewrite M. destruct (matches_desc_true _ _ M) as [Hs Hh].
       destruct (resolve_ref main rs); [|exact Hi]. apply put_manifest_sinv; auto.
     - destruct getc as [c|]; [cbn [fst]; now apply sinv_blobs|].
       destruct (lookup (d_dg d) (t_other st)); [cbn [fst]; now apply sinv_blobs|exact Hi].
@@ -935,7 +953,7 @@ Section Refine.
   Qed.
 
   (* ---------- histories ---------- *)
-  Notation run_ops' := (run_ops H parse_mt subject_of main other user_mts S ex0).
+  Notation run_ops' := (run_ops H parse_mt subject_of main other user_mts limit S ex0).
   Notation spec_run' := (spec_run H subject_of main user_mts).
 
   Lemma run_ops_refines os : forall g n rst,
@@ -961,7 +979,7 @@ Section Refine.
     (forall d c, lookup d other_blobs = Some c -> d = H c) ->
     rst_ok rst ->
     wf_hist (mkStore [] [] [] other_blobs) os ->
-    run_history H parse_mt subject_of main other user_mts p None other_blobs rst os = (g, out) ->
+    run_history H parse_mt subject_of main other user_mts limit p None other_blobs rst os = (g, out) ->
     map snd out = snd (spec_run' (mkStore [] [] [] other_blobs) os) /\
     store_of g = fst (spec_run' (mkStore [] [] [] other_blobs) os).
   Proof.
@@ -978,7 +996,7 @@ Section Refine.
   Lemma man_resolve_tag_nohdr g n rs rf d mt c :
     resolve_ref main rs = Some rf -> valid_digest rf = false ->
     man_lookup (store_of g) rf = Some (d, (mt, c)) -> p_dighdr p = false ->
-    exists t, man_resolve H parse_mt main user_mts S ex0 (g, n) rs = ((g, n + 1), t, RErr EOther).
+    exists t, man_resolve H parse_mt main user_mts limit S ex0 (g, n) rs = ((g, n + 1), t, RErr EOther).
   Proof.
     intros ER Vr L Pd. unfold man_resolve.
     rewrite ER, hx_head_man, (man_resp_hit true g rf d mt c L). simp.
@@ -1011,10 +1029,10 @@ End Refine.
 
 (* ---------- the registry model (also with one corrupted response) meets [loc_ok] ---------- *)
 Definition no_status_corruption (kor : option (N * corruption)) : Prop :=
-  match kor with Some (_, KStatus _) => False | _ => True end.
+  match kor with Some (_, KStatus _) | Some (_, KNameUnknown) => False | _ => True end.
 
 Lemma corrupt_keeps k r :
-  match k with KStatus _ => False | _ => True end ->
+  match k with KStatus _ | KNameUnknown => False | _ => True end ->
   r_status (corrupt k r) = r_status r /\ (r_loc (corrupt k r) = r_loc r \/ r_loc (corrupt k r) = None).
 Proof. destruct r, k; cbn; intro X; try contradiction; auto. Qed.
 
@@ -1045,22 +1063,22 @@ Proof.
   destruct (handle H (subj_of subject_of) main other p g q) as [g1 r]. cbn [snd] in *.
   destruct kor as [[k c]|]; [|exact Hh].
   destruct (n =? k); [|exact Hh].
-  assert (Hc : match c with KStatus _ => False | _ => True end) by (destruct c; auto).
+  assert (Hc : match c with KStatus _ | KNameUnknown => False | _ => True end) by (destruct c; auto).
   destruct (corrupt_keeps c r Hc) as [Es [El|El]]; rewrite Es, El; auto.
 Qed.
 
 (* every request of every history against the registry model is allowed, also when one
    response is corrupted in any field but the status *)
-Theorem run_history_allowed H parse_mt subject_of main other user_mts p kor other_blobs rst os g out :
+Theorem run_history_allowed H parse_mt subject_of main other user_mts limit p kor other_blobs rst os g out :
   valid_repository main = true -> valid_repository other = true ->
   no_status_corruption kor -> Forall op_ok os ->
-  run_history H parse_mt subject_of main other user_mts p kor other_blobs rst os = (g, out) ->
+  run_history H parse_mt subject_of main other user_mts limit p kor other_blobs rst os = (g, out) ->
   Forall (fun tr => Forall (fun qr => allowed (fst qr) = true) (fst tr)) out.
 Proof.
   intros Vm Vo Hk Hok. unfold run_history.
-  destruct (run_ops _ _ _ _ _ _ _ _ _ rst os) as [[s rst'] out'] eqn:E.
+  destruct (run_ops _ _ _ _ _ _ _ _ _ _ rst os) as [[s rst'] out'] eqn:E.
   intro X. injection X as _ <-.
-  eapply (run_ops_allowed H parse_mt subject_of main other user_mts (reg * N)
+  eapply (run_ops_allowed H parse_mt subject_of main other user_mts limit (reg * N)
             (cexch H subject_of main other p kor) Vm Vo (registry_loc_ok _ _ _ _ _ _ Vm Hk)); eauto.
 Qed.
 
@@ -1068,13 +1086,14 @@ Qed.
 (* A registry that omits the optional Docker-Content-Digest header: after a successful
    PushReference under a tag, Resolve of that tag fails although the store holds it. *)
 Definition w_H (_ : str) : str := zero_digest.
+Definition w_limit : N := 4194304.
 Definition w_profile := mkProfile false true true false false.
 Definition w_content := b "{}".
 Definition w_desc := mkDesc mt_oci_manifest zero_digest 2.
 Definition w_ops := [OPushRef w_desc w_content (b "v1"); OResolve (b "v1")].
 
 Lemma resolve_tag_without_digest_header_refuted :
-  map snd (snd (run_history w_H (fun s => Some s) (fun _ => Some None) (b "app") (b "src") []
+  map snd (snd (run_history w_H (fun s => Some s) (fun _ => Some None) (b "app") (b "src") [] w_limit
                             w_profile None [] RSUnknown w_ops))
   = [ROk; RErr EOther] /\
   snd (spec_run w_H (fun _ => Some None) (b "app") [] (mkStore [] [] [] []) w_ops)
@@ -1095,7 +1114,7 @@ Definition ex_ops : list op :=
    OPreds w_desc; ODelete w_desc; OResolve (b "v2");
    OPushRef ex_rdesc ex_ref (b "r1"); OPreds w_desc].
 Lemma refines_store_nonvacuous :
-  wf_hist w_H (fun s => Some s) ex_subject (b "app") [] ex_profile
+  wf_hist w_H (fun s => Some s) ex_subject (b "app") [] w_limit ex_profile
           (mkStore [] [] [] [(zero_digest, ex_blob)]) ex_ops /\
   rst_ok ex_profile RSUnknown /\
   snd (spec_run w_H ex_subject (b "app") [] (mkStore [] [] [] [(zero_digest, ex_blob)]) ex_ops)
@@ -1108,6 +1127,7 @@ Proof.
            | X : Some _ = Some _ |- _ => injection X; clear X; intros; subst
            | X : None = Some _ |- _ => discriminate X
            end; auto.
+  all: try discriminate.
   all: try (right; split; [reflexivity|]; eexists; split; [reflexivity|discriminate]).
 Qed.
 
@@ -1155,7 +1175,7 @@ Definition cover_ops (p : profile) : list op :=
 
 Definition covered (p : profile) (rst : rstate) : bool :=
   results_eqb
-    (map snd (snd (run_history w_H (fun s => Some s) ex_subject (b "app") (b "src") [] p None
+    (map snd (snd (run_history w_H (fun s => Some s) ex_subject (b "app") (b "src") [] w_limit p None
                                [(zero_digest, ex_blob)] rst (cover_ops p))))
     (snd (spec_run w_H ex_subject (b "app") [] (mkStore [] [] [] [(zero_digest, ex_blob)]) (cover_ops p))).
 
